@@ -17,6 +17,7 @@ import (
 
 // C18 — vectorised DCT kernels equal the portable kernels bit-for-bit and match DCT-II.
 type C18 struct {
+	seq      int
 	origF64  func([]float32)
 	origF256 func([]float32)
 	origGray func(*image.YCbCr, []float32)
@@ -35,7 +36,7 @@ var c18Scales = []float64{1, -1, 255, 1e-6, 1e6, -3.7e3, 1e-3, 1e3}
 func (e *C18) ID() string    { return "C18" }
 func (e *C18) Level() string { return "exploration" }
 func (e *C18) Rule() string {
-	return "sections: (0) self-test of the guard-page sanitizer (a deliberately over-long operand must fault); (A, exhaustive) every unit impulse of the 64- and 256-point kernels at 8 signed scales over 12 decades, and every one of the 4096 unit impulses of the 64x64 2-D kernel; (B) edge vectors (constant, alternating, ramps, steps, extremes, pixel-like integers, zero); (C) seeded random vectors (uniform, normal, 0..255 integers, sparse, smooth) at scales 1e-6..1e6 in batches of 200; (D) random and image-like 64x64 inputs for the 2-D kernel; (E) dispatch: exported DCT2DHash64/DCT2DHash256 and NewPHash64Alt/NewPHash256Alt with FlagUseASM / ForwardDCT64 / ForwardDCT256 switched between the assembly and the portable kernels. Oracle per vector: bits(asm(x)) == bits(go(x)) in every lane, with the assembly operand placed flush against a PROT_NONE page (end placement and start placement alternate; the 16 KiB 2-D operand is flush on both sides) and the canary slack re-checked; |go(x)-DCTII(x)|_inf <= 1e-5*||x||_1 against a direct O(N^2) float64 DCT-II (2.5e-5 for the two-pass 2-D kernel); float64 kernels within 1e-12*||x||_1. Non-trivial: a non-zero vector; distinct = distinct (kernel, family, scale decade, placement)."
+	return "sections: (0) self-test of the guard-page sanitizer (a deliberately over-long operand must fault); (A, exhaustive) every unit impulse of the 64- and 256-point kernels at 8 signed scales over 12 decades, and every one of the 4096 unit impulses of the 64x64 2-D kernel; (B) edge vectors (constant, alternating, ramps, steps, extremes, pixel-like integers, zero); (C) seeded random vectors (uniform, normal, 0..255 integers, sparse, smooth) at scales 1e-6..1e6 in batches of 200; (D) random and image-like 64x64 inputs for the 2-D kernel; (E) dispatch: exported DCT2DHash64/DCT2DHash256 and NewPHash64Alt/NewPHash256Alt with FlagUseASM / ForwardDCT64 / ForwardDCT256 switched between the assembly and the portable kernels. Oracle per vector: bits(asm(x)) == bits(go(x)) in every lane, with the assembly operand placed flush against a PROT_NONE page (end placement and start placement alternate; the 16 KiB 2-D operand is flush on both sides; every third or fourth operand is only 4-byte aligned, 4..12 bytes from the guard page) and the canary slack re-checked; |go(x)-DCTII(x)|_inf <= 1e-5*||x||_1 against a direct O(N^2) float64 DCT-II (2.5e-5 for the two-pass 2-D kernel); float64 kernels within 1e-12*||x||_1. Non-trivial: a non-zero vector; distinct = distinct (kernel, family, scale decade, placement)."
 }
 func (e *C18) Assumptions() []string {
 	return []string{
@@ -118,9 +119,14 @@ func (e *C18) check1D(c *core.Ctx, x []float32, family string, atEnd bool) {
 	// portable kernel
 	goOut := append([]float32(nil), x...)
 	goK(goOut)
-	// assembly kernel on a guarded operand
+	// assembly kernel on a guarded operand; every third vector sits at an address that is only
+	// 4-byte aligned (a []float32 may start anywhere), 4..12 bytes away from the guard page
 	gp := guardsFor(4 * n)
 	g := gp.pick(atEnd)
+	e.seq++
+	if e.seq%3 == 0 {
+		g = misalignedGuard(4*n, atEnd, 4*(1+(e.seq/3)%3))
+	}
 	op := g.Float32s()
 	copy(op, x)
 	guards := map[string]*mon.Guard{"input": g}
@@ -216,6 +222,23 @@ func dct256WeightedL1(x []float64) (allowed, centreMass float64) {
 	return
 }
 
+var misGuards = map[[3]int]*mon.Guard{}
+
+// misalignedGuard returns a cached guard whose operand is shifted by shift bytes from the flush
+// position (so it is 4- but not 16/32-byte aligned).
+func misalignedGuard(n int, atEnd bool, shift int) *mon.Guard {
+	k := [3]int{n, shift, 0}
+	if atEnd {
+		k[2] = 1
+	}
+	if g, ok := misGuards[k]; ok {
+		return g
+	}
+	g := mon.MustGuard(n, atEnd, shift)
+	misGuards[k] = g
+	return g
+}
+
 // check2D runs the 64x64 2-D kernel oracles.
 func (e *C18) check2D(c *core.Ctx, x []float32, family string) {
 	detail := func() map[string]any {
@@ -224,6 +247,10 @@ func (e *C18) check2D(c *core.Ctx, x []float32, family string) {
 	goIn := append([]float32(nil), x...)
 	goOut := transforms32.VerifGoDCT2DHash64(goIn)
 	g := guardsFor(4 * 4096).end // 16 KiB = 4 pages: flush against both guard pages
+	e.seq++
+	if e.seq%4 == 0 {
+		g = misalignedGuard(4*4096, e.seq%8 == 0, 4*(1+(e.seq/4)%3))
+	}
 	op := g.Float32s()
 	copy(op, x)
 	guards := map[string]*mon.Guard{"input": g}
